@@ -733,7 +733,7 @@ def run(ctx):
         raise core.Inconclusive("no mscript binary at %s" % core.BIN)
     lib = ffi.build_probe(quiet=True)
     cat = catalogue()
-    rnd = random_cases(ctx, ctx.n(400, 6000))
+    rnd = random_cases(ctx, ctx.n(1500, 8000))
     items = [(c, lib, False) for c in cat + rnd]
     have_vg = core.run(["valgrind", "--version"], core.WORK, cpu=10).cls == "ok"
     vg_cases = valgrind_sample(ctx, cat, rnd) if have_vg else []
